@@ -816,4 +816,632 @@ theorem firstSettings_witness_if_unchecked (hopen : Consts.h2FirstSettingsChecks
   decide
 
 
+/-! ### connection histories -/
+
+theorem connStep_dead (c : Conn) (op : ConnOp) (h : c.dead = true) :
+    (connStep c op).2 = none ∧ (connStep c op).1.dead = true := by
+  cases op <;> simp [connStep, h]
+
+theorem connStep_connError (c : Conn) (op : ConnOp) (k : Nat)
+    (h : (connStep c op).2 = some (.connError k)) : (connStep c op).1.dead = true := by
+  cases op with
+  | startDrain => simp [connStep] at h
+  | respond sid => simp [connStep] at h
+  | frame sid fk es =>
+    unfold connStep at h ⊢
+    grind
+
+theorem connRun_dead (c : Conn) (ops : List ConnOp) (h : c.dead = true) :
+    ∀ o ∈ (connRun c ops).2, o = none := by
+  induction ops generalizing c with
+  | nil => intro o ho; simp [connRun] at ho
+  | cons op r ih =>
+    intro o ho
+    simp only [connRun, List.mem_cons] at ho
+    rcases ho with rfl | ho
+    · exact (connStep_dead c op h).1
+    · exact ih _ (connStep_dead c op h).2 o ho
+
+/-! limit -/
+
+theorem liveRemove_length (l : List (Nat × Bool)) (sid : Nat) : (liveRemove l sid).length ≤ l.length := by
+  unfold liveRemove; exact List.length_filter_le _ _
+
+theorem liveSetEos_length (l : List (Nat × Bool)) (sid : Nat) : (liveSetEos l sid).length = l.length := by
+  unfold liveSetEos; simp
+
+theorem connStep_limit (c : Conn) (op : ConnOp) (h : c.live.length ≤ c.maxStreams) :
+    (connStep c op).1.live.length ≤ (connStep c op).1.maxStreams ∧ (connStep c op).1.maxStreams = c.maxStreams := by
+  have h1 := fun sid => liveRemove_length c.live sid
+  have h2 := fun sid => liveSetEos_length c.live sid
+  cases op with
+  | startDrain => simp [connStep, h]
+  | respond sid => simp only [connStep]; exact ⟨Nat.le_trans (h1 sid) h, trivial⟩
+  | frame sid fk es =>
+    have a := h1 sid
+    have b := h2 sid
+    unfold connStep
+    grind
+
+theorem connRun_limit (c : Conn) (ops : List ConnOp) (h : c.live.length ≤ c.maxStreams) :
+    (connRun c ops).1.live.length ≤ c.maxStreams := by
+  induction ops generalizing c with
+  | nil => simpa [connRun] using h
+  | cons op r ih =>
+    obtain ⟨a, b⟩ := connStep_limit c op h
+    simp only [connRun]
+    have := ih _ a
+    rw [b] at this
+    exact this
+
+/-! RST_STREAM at most once per stream -/
+
+/-- the stream a step answers with RST_STREAM, if any -/
+def rstEmitted (c : Conn) (op : ConnOp) : Option Nat :=
+  match op, (connStep c op).2 with
+  | .frame sid _ _, some (.streamError _) => some sid
+  | _, _ => none
+
+/-- every stream that gets a RST_STREAM during a history, in order -/
+def rstHistory (c : Conn) : List ConnOp → List Nat
+  | [] => []
+  | op :: ops => (match rstEmitted c op with | some sid => [sid] | none => []) ++ rstHistory (connStep c op).1 ops
+
+theorem connStep_rst (c : Conn) (op : ConnOp) :
+    (∀ x ∈ c.rstSent, x ∈ (connStep c op).1.rstSent) ∧
+    (∀ sid, rstEmitted c op = some sid → sid ∉ c.rstSent ∧ sid ∈ (connStep c op).1.rstSent) := by
+  cases op with
+  | startDrain => simp [connStep, rstEmitted]
+  | respond sid => simp [connStep, rstEmitted]
+  | frame sid fk es =>
+    have hc : ∀ x : Nat, c.rstSent.contains x = true ↔ x ∈ c.rstSent := fun x => List.contains_iff_mem
+    cases fk <;> simp only [rstEmitted, connStep, Conn.view, headerVerdict] <;> grind
+
+theorem rstHistory_spec (c : Conn) (ops : List ConnOp) :
+    (rstHistory c ops).Nodup ∧ ∀ x ∈ rstHistory c ops, x ∉ c.rstSent := by
+  induction ops generalizing c with
+  | nil => simp [rstHistory]
+  | cons op r ih =>
+    obtain ⟨mono, em⟩ := connStep_rst c op
+    obtain ⟨nd, fresh⟩ := ih (connStep c op).1
+    simp only [rstHistory]
+    cases he : rstEmitted c op with
+    | none =>
+      simp only [List.nil_append]
+      exact ⟨nd, fun x hx hc => fresh x hx (mono x hc)⟩
+    | some sid =>
+      obtain ⟨h1, h2⟩ := em sid he
+      simp only [List.singleton_append, List.nodup_cons, List.mem_cons]
+      refine ⟨⟨fun hm => fresh sid hm h2, nd⟩, ?_⟩
+      intro x hx
+      rcases hx with rfl | hx
+      · exact h1
+      · exact fun hc => fresh x hx (mono x hc)
+
+/-! RFC 9113 §5.1 edges -/
+
+theorem liveGet_remove (l : List (Nat × Bool)) (sid sid' : Nat) :
+    liveGet (liveRemove l sid) sid' = if sid' = sid then none else liveGet l sid' := by
+  induction l with
+  | nil => simp [liveRemove, liveGet]
+  | cons p r ih =>
+    obtain ⟨k, e⟩ := p
+    simp only [liveRemove, List.filter_cons] at ih ⊢
+    by_cases hk : k = sid
+    · subst hk; simp only [bne_self_eq_false, Bool.false_eq_true, ↓reduceIte, ih, liveGet]; grind
+    · have : (k != sid) = true := by simpa using hk
+      simp only [this, ↓reduceIte, liveGet, ih]; grind
+
+theorem liveGet_setEos (l : List (Nat × Bool)) (sid sid' : Nat) :
+    liveGet (liveSetEos l sid) sid' = if sid' = sid then (liveGet l sid).map (fun _ => true) else liveGet l sid' := by
+  induction l with
+  | nil => simp [liveSetEos, liveGet]
+  | cons p r ih =>
+    obtain ⟨k, e⟩ := p
+    simp only [liveSetEos, List.map_cons] at ih ⊢
+    by_cases hk : k = sid
+    · subst hk; simp only [↓reduceIte, liveGet, ih]; grind
+    · simp only [hk, ↓reduceIte, liveGet, ih]; grind
+
+theorem liveGet_some_mem {l : List (Nat × Bool)} {sid : Nat} {e : Bool} (h : liveGet l sid = some e) :
+    ∃ p ∈ l, p.1 = sid := by
+  induction l with
+  | nil => simp [liveGet] at h
+  | cons p r ih =>
+    obtain ⟨k, e'⟩ := p
+    simp only [liveGet] at h
+    split at h
+    · next hk => exact ⟨(k, e'), List.mem_cons_self, hk⟩
+    · obtain ⟨q, hq, hq'⟩ := ih h; exact ⟨q, List.mem_cons_of_mem _ hq, hq'⟩
+
+/-- ids in the stream map are at most `last_stream_id`, which is at most `highest_peer_stream_id` -/
+def Conn.wf (c : Conn) : Prop := (∀ p ∈ c.live, p.1 ≤ c.lastId) ∧ c.lastId ≤ c.highest
+
+/-- the event is not a HEADERS frame re-using an id sozu refused earlier
+    (above `last_stream_id`, at most `highest_peer_stream_id`) -/
+def noReuse (c : Conn) : ConnOp → Prop
+  | .frame sid .headers _ => ¬ (sid > c.lastId ∧ sid ≤ c.highest)
+  | _ => True
+
+instance (c : Conn) (op : ConnOp) : Decidable (noReuse c op) := by
+  cases op with
+  | frame sid fk es => cases fk <;> (unfold noReuse; infer_instance)
+  | respond sid => unfold noReuse; infer_instance
+  | startDrain => unfold noReuse; infer_instance
+
+theorem liveGet_none_of_gt {c : Conn} (hwf : c.wf) {sid : Nat} (h : sid > c.lastId) : liveGet c.live sid = none := by
+  cases hg : liveGet c.live sid with
+  | none => rfl
+  | some e =>
+    obtain ⟨p, hp, hp'⟩ := liveGet_some_mem hg
+    have := hwf.1 p hp
+    omega
+
+theorem connStep_wf (c : Conn) (op : ConnOp) (hwf : c.wf) : (connStep c op).1.wf := by
+  obtain ⟨h1, h2⟩ := hwf
+  cases op with
+  | startDrain => exact ⟨h1, h2⟩
+  | respond sid =>
+    refine ⟨fun p hp => h1 p ?_, h2⟩
+    simp only [connStep, liveRemove] at hp
+    exact (List.mem_filter.mp hp).1
+  | frame sid fk es =>
+    have hr : ∀ p ∈ liveRemove c.live sid, p.1 ≤ c.lastId := fun p hp => h1 p (List.mem_filter.mp hp).1
+    have hs : ∀ p ∈ liveSetEos c.live sid, p.1 ≤ c.lastId := by
+      intro p hp
+      simp only [liveSetEos, List.mem_map] at hp
+      obtain ⟨q, hq, rfl⟩ := hp
+      have := h1 q hq
+      split <;> simpa using this
+    unfold connStep Conn.wf
+    simp only
+    split
+    · exact ⟨h1, h2⟩
+    · split
+      · next hnew =>
+        split
+        · split
+          · exact ⟨h1, by simp only; omega⟩
+          · exact ⟨h1, by simp only; omega⟩
+        · refine ⟨?_, by simp only; omega⟩
+          intro p hp
+          simp only [List.mem_cons] at hp
+          rcases hp with rfl | hp
+          · exact Nat.le_refl _
+          · have := h1 p hp; simp only; omega
+      · split
+        · exact ⟨h1, h2⟩
+        · exact ⟨h1, h2⟩
+        · split
+          · split
+            · exact ⟨hr, h2⟩
+            · split
+              · exact ⟨hs, h2⟩
+              · exact ⟨h1, h2⟩
+          · exact ⟨h1, h2⟩
+
+theorem connStep_rfcEdge (c : Conn) (op : ConnOp) (hwf : c.wf) (hno : noReuse c op) (sid' : Nat) :
+    rfcEdge (c.rfcState sid') ((connStep c op).1.rfcState sid') = true := by
+  have hrm := liveGet_remove c.live
+  have hse := liveGet_setEos c.live
+  have hgt := fun sid (h : sid > c.lastId) => liveGet_none_of_gt hwf h
+  have hle := hwf.2
+  have hmem : ∀ e, liveGet c.live sid' = some e → sid' ≤ c.highest := by
+    intro e hg
+    obtain ⟨p, hp, hp'⟩ := liveGet_some_mem hg
+    have := hwf.1 p hp
+    omega
+  have hcons : ∀ (k : Nat) (e : Bool) (x : Nat), liveGet ((k, e) :: c.live) x = if k = x then some e else liveGet c.live x :=
+    fun k e x => by simp [liveGet]
+  cases op with
+  | startDrain =>
+    simp only [connStep, Conn.rfcState]
+    cases hg : liveGet c.live sid' with
+    | none => grind [rfcEdge]
+    | some e => cases e <;> grind [rfcEdge]
+  | respond sid =>
+    simp only [connStep, Conn.rfcState, hrm]
+    cases hg : liveGet c.live sid' with
+    | none => grind [rfcEdge]
+    | some e => have := hmem e hg; cases e <;> grind [rfcEdge]
+  | frame sid fk es =>
+    cases fk <;> simp only [noReuse] at hno <;>
+      simp only [connStep, Conn.view, headerVerdict, Conn.rfcState, liveGet] <;>
+      (cases hg : liveGet c.live sid' with
+        | none => grind [rfcEdge]
+        | some e => have := hmem e hg; cases e <;> grind [rfcEdge])
+
+
+/-- a history in which no HEADERS frame re-uses a refused id, judged along the run -/
+def noReuseRun (c : Conn) : List ConnOp → Prop
+  | [] => True
+  | op :: ops => noReuse c op ∧ noReuseRun (connStep c op).1 ops
+
+def decNoReuseRun : (c : Conn) → (ops : List ConnOp) → Decidable (noReuseRun c ops)
+  | _, [] => isTrue trivial
+  | c, op :: ops =>
+    match (inferInstance : Decidable (noReuse c op)), decNoReuseRun (connStep c op).1 ops with
+    | isTrue a, isTrue b => isTrue ⟨a, b⟩
+    | isFalse a, _ => isFalse fun h => a h.1
+    | _, isFalse b => isFalse fun h => b h.2
+
+instance (c : Conn) (ops : List ConnOp) : Decidable (noReuseRun c ops) := decNoReuseRun c ops
+
+/-- every step of the history moves stream `sid` along an edge of the RFC 9113 §5.1 diagram -/
+def edgesOk (c : Conn) (sid : Nat) : List ConnOp → Prop
+  | [] => True
+  | op :: ops => rfcEdge (c.rfcState sid) ((connStep c op).1.rfcState sid) = true ∧ edgesOk (connStep c op).1 sid ops
+
+theorem connRun_edgesOk (c : Conn) (ops : List ConnOp) (sid : Nat) (hwf : c.wf) (hno : noReuseRun c ops) :
+    edgesOk c sid ops := by
+  induction ops generalizing c with
+  | nil => trivial
+  | cons op r ih =>
+    exact ⟨connStep_rfcEdge c op hwf hno.1 sid, ih _ (connStep_wf c op hwf) hno.2⟩
+
+theorem connRun_closed_stays (c : Conn) (ops : List ConnOp) (sid : Nat) (hwf : c.wf) (hno : noReuseRun c ops)
+    (hc : c.rfcState sid = .closed) : (connRun c ops).1.rfcState sid = .closed := by
+  induction ops generalizing c with
+  | nil => simpa [connRun] using hc
+  | cons op r ih =>
+    have he := connStep_rfcEdge c op hwf hno.1 sid
+    rw [hc] at he
+    have hc' : (connStep c op).1.rfcState sid = .closed := by
+      cases h : (connStep c op).1.rfcState sid <;> rw [h] at he <;> first | rfl | (simp [rfcEdge] at he)
+    simp only [connRun]
+    exact ih _ (connStep_wf c op hwf) hno.2 hc'
+
+theorem Conn.init_wf (m : Nat) : (Conn.init m).wf := by
+  refine ⟨?_, Nat.le_refl _⟩
+  intro p hp
+  simp [Conn.init] at hp
+
+/-- after the step that answers a connection error, nothing is answered any more -/
+theorem connRun_after_connError (c : Conn) (op : ConnOp) (ops : List ConnOp) (k : Nat)
+    (h : (connStep c op).2 = some (.connError k)) : ∀ o ∈ (connRun (connStep c op).1 ops).2, o = none :=
+  connRun_dead _ ops (connStep_connError c op k h)
+
+
+/-! ### proofs of the property theorems (statements: `Props.lean`) -/
+
+theorem c15_decoder_total_and_exact (input : Bytes) (mfs : Nat) :
+    match decode input mfs with
+    | .ok h _ consumed =>
+        consumed = Consts.h2FrameHeaderSize + h.len ∧ consumed ≤ input.length ∧
+        h.len = declaredLen input ∧ h.len ≤ mfs
+    | .incomplete =>
+        input.length < Consts.h2FrameHeaderSize ∨
+        input.length < Consts.h2FrameHeaderSize + declaredLen input
+    | .err c => c = PROTOCOL_ERROR ∨ c = FRAME_SIZE_ERROR := by
+  cases hd : decode input mfs with
+  | ok h f c =>
+    obtain ⟨rest, rest', e0, e1, hc⟩ := decode_ok hd
+    obtain ⟨h9, hrest, hlen, hmfs, _⟩ := frameHeader_ok e0
+    obtain ⟨hl, hr⟩ := frameBody_ok e1
+    subst hrest hr hc
+    simp only [List.length_drop, Consts.h2FrameHeaderSize] at *
+    exact ⟨by omega, by omega, hlen, hmfs⟩
+  | incomplete =>
+    rcases decode_incomplete hd with e0 | ⟨h, rest, e0, _, hlt⟩
+    · left; simpa [Consts.h2FrameHeaderSize] using frameHeader_eof e0
+    · obtain ⟨h9, hrest, hlen, _, _⟩ := frameHeader_ok e0
+      right
+      subst hrest
+      simp only [List.length_drop, Consts.h2FrameHeaderSize] at *
+      omega
+  | err c =>
+    rcases decode_err hd with e0 | ⟨h, rest, _, e1 | ⟨_, _, hc⟩⟩
+    · exact frameHeader_fail e0
+    · exact frameBody_fail e1
+    · left; exact hc
+
+theorem c15_classification (input : Bytes) (mfs : Nat)
+    (hc : Consts.h2FrameHeaderSize + declaredLen input ≤ input.length) :
+    outcome (decode input mfs) =
+      some (classify (typeByteOf input) (flagsOf input) (sidOf input) (declaredLen input) mfs
+              ((payloadOf input).headD 0)) := by
+  simp only [Consts.h2FrameHeaderSize] at hc
+  have h3 : ¬ input.length < 3 := by omega
+  have h9 : ¬ input.length < 9 := by omega
+  unfold decode frameHeader classify
+  simp only [h3, h9, if_false]
+  by_cases hm : beVal (input.take 3) > mfs
+  · simp [hm, declaredLen, outcome]
+  · simp only [hm, if_false, declaredLen]
+    by_cases hs : sidValid (convertFrameType ((input.drop 3).headD 0)) (mask31 (beVal ((input.drop 5).take 4))) = true
+    · simp only [hs, if_true, typeByteOf, flagsOf, sidOf, payloadOf, declaredLen]
+      have hb := bodyClass_eq (input.drop 9)
+        { len := beVal (input.take 3), ftype := convertFrameType ((input.drop 3).headD 0),
+          flags := (input.drop 4).headD 0, sid := mask31 (beVal ((input.drop 5).take 4)) }
+        (by simp only [List.length_drop, declaredLen] at *; omega)
+      simp only at hb
+      rw [← hb]
+      have hlen : ¬ (input.drop 9).length < beVal (input.take 3) := by
+        simp only [List.length_drop, declaredLen] at *; omega
+      cases hfb : frameBody (input.drop 9) _ with
+      | ok f r => simp [outcome, bodyOutcome]
+      | fail c => simp [outcome, bodyOutcome]
+      | eof =>
+        simp only [List.length_drop] at hlen
+        simp [outcome, bodyOutcome, hlen]
+    · simp only [Bool.not_eq_true] at hs
+      simp only [hs, typeByteOf, sidOf, outcome, Bool.false_eq_true, if_false, if_true]
+
+theorem c15_padding_rules_reject (i : Bytes) (h : Header) (hc : h.len ≤ i.length)
+    (ht : h.ftype = .data ∨ h.ftype = .headers)
+    (hp : flagSet h.flags Consts.h2FlagPadded = true)
+    (hbad : h.len = 0 ∨ h.len ≤ (i.take h.len).headD 0) :
+    bodyOutcome (frameBody i h) = .error PROTOCOL_ERROR := by
+  rw [bodyClass_eq i h hc]
+  unfold bodyClass
+  rcases ht with ht | ht
+  · simp only [ht, hp, ↓reduceIte]
+    rw [if_pos (by omega)]
+  · simp only [ht, hp, ↓reduceIte]
+    rw [if_pos (by omega)]
+
+theorem c15_padding_rules_data_accept (p : Nat) (r : Bytes) (h : Header)
+    (hc : h.len ≤ (p :: r).length) (ht : h.ftype = .data)
+    (hp : flagSet h.flags Consts.h2FlagPadded = true) (hlt : p < h.len) :
+    frameBody (p :: r) h =
+      .ok (.data h.sid (r.take (h.len - 1 - p)) (flagSet h.flags Consts.h2FlagEndStream))
+          ((p :: r).drop h.len) := by
+  obtain ⟨n, hn⟩ : ∃ n, h.len = n + 1 := ⟨h.len - 1, by omega⟩
+  have hlen : ¬ (p :: r).length < n + 1 := by omega
+  have hle : n ≤ r.length := by simp only [List.length_cons] at hc; omega
+  unfold frameBody dataFrame
+  simp only [ht, hlen, if_false, hn, List.take_succ_cons, stripPadding, hp, if_true, List.length_take]
+  have h1 : ¬ p > min n r.length := by omega
+  simp only [h1, if_false, unpad, List.length_take]
+  have h2 : p ≤ min n r.length := by omega
+  simp only [h2, if_true, List.take_take]
+  have h3 : min (min n r.length - p) n = n + 1 - 1 - p := by omega
+  rw [h3]
+
+theorem c15_padding_rules_data_plain (i : Bytes) (h : Header)
+    (hc : h.len ≤ i.length) (ht : h.ftype = .data)
+    (hp : flagSet h.flags Consts.h2FlagPadded = false) :
+    frameBody i h =
+      .ok (.data h.sid (i.take h.len) (flagSet h.flags Consts.h2FlagEndStream)) (i.drop h.len) := by
+  have hlen : ¬ i.length < h.len := by omega
+  unfold frameBody dataFrame
+  simp [ht, hlen, stripPadding, hp, unpad, List.take_take]
+
+theorem c15_settings_bounds {i : Bytes} {h : Header} {es : List (Nat × Nat)} {ack : Bool} {rest : Bytes}
+    (e : frameBody i h = .ok (.settings es ack) rest) :
+    h.ftype = .settings ∧ h.len % Consts.h2SettingsEntrySize = 0 ∧
+    es.length * Consts.h2SettingsEntrySize = h.len ∧
+    es.length ≤ Consts.h2MaxSettingsEntries ∧
+    (ack = true → es = []) := by
+  unfold frameBody at e
+  split at e
+  all_goals
+    try unfold dataFrame at e
+    try unfold headersFrame at e
+    try unfold priorityFrame at e
+    try unfold rstStreamFrame at e
+    try unfold pushPromiseFrame at e
+    try unfold continuationFrame at e
+    try unfold pingFrame at e
+    try unfold goAwayFrame at e
+    try unfold windowUpdateFrame at e
+    try unfold priorityUpdateFrame at e
+    try unfold unknownFrame at e
+  case h_7 ht =>
+    split at e
+    · cases e
+    · next hack =>
+      split at e
+      · next h6 =>
+        obtain ⟨hcap, hl, hle⟩ := settingsFrame_cap e
+        refine ⟨ht, h6, ?_, hcap, ?_⟩
+        · simp only [Consts.h2SettingsEntrySize] at *; omega
+        · intro ha
+          unfold settingsFrame at e
+          split at e
+          · cases e
+          · split at e
+            · cases e
+            · injection e with e1 e2
+              injection e1 with e3 e4
+              rw [← e4] at ha
+              simp only [ha, Bool.true_and, bne_iff_ne, ne_eq, Decidable.not_not] at hack
+              have : es.length = 0 := by rw [hl, hack]
+              exact List.eq_nil_of_length_eq_zero this
+      · cases e
+  all_goals grind
+
+theorem c15_first_settings_cap {i : Bytes} {es : List (Nat × Nat)} {ack : Bool} {rest : Bytes}
+    (e : firstSettings i = .ok (.settings es ack) rest) : es.length ≤ Consts.h2MaxSettingsEntries := by
+  unfold firstSettings at e
+  split at e
+  · cases e
+  · exact (settingsFrame_cap e).1
+
+theorem c15_decode_encode_header (h : Header) (rest : Bytes) (mfs : Nat)
+    (hl : h.len < 16777216) (hm : h.len ≤ mfs) (hf : h.flags < 256) (hw : h.ftype.wf)
+    (hs : sidValid h.ftype (mask31 h.sid) = true) :
+    frameHeader (genFrameHeader h ++ rest) mfs = .ok { h with sid := mask31 h.sid } rest := by
+  rw [frameHeader_gen, convert_serialize _ hw, Nat.mod_eq_of_lt hl, Nat.mod_eq_of_lt hf]
+  have : ¬ h.len > mfs := by omega
+  simp [this, hs]
+
+theorem c15_decode_encode_rst_stream (sid code mfs : Nat) (hm : Consts.h2RstStreamPayloadSize ≤ mfs)
+    (hs : mask31 sid ≠ 0) (hc : code < 4294967296) :
+    decode (genRstStream sid code) mfs =
+      .ok { len := Consts.h2RstStreamPayloadSize, ftype := .rstStream, flags := 0, sid := mask31 sid }
+          (.rstStream (mask31 sid) code) (genRstStream sid code).length := by
+  unfold genRstStream
+  have hh := c15_decode_encode_header
+    { len := Consts.h2RstStreamPayloadSize, ftype := .rstStream, flags := 0, sid := sid } (be32 code) mfs
+    (by simp [Consts.h2RstStreamPayloadSize]) hm (by simp) trivial (by simp [sidValid, hs])
+  have hv : beVal (be32 code) = code := by rw [beVal_be32]; omega
+  have hb : frameBody (be32 code)
+      { len := Consts.h2RstStreamPayloadSize, ftype := .rstStream, flags := 0, sid := mask31 sid } =
+      .ok (.rstStream (mask31 sid) code) [] := by
+    simp [frameBody, rstStreamFrame, Consts.h2RstStreamPayloadSize, be32] at hv ⊢
+    exact hv
+  rw [decode_of_ok hh hb]
+  simp
+
+theorem c15_decode_encode_window_update (sid inc mfs : Nat) (hm : Consts.h2WindowUpdatePayloadSize ≤ mfs) :
+    decode (genWindowUpdate sid inc) mfs =
+      .ok { len := Consts.h2WindowUpdatePayloadSize, ftype := .windowUpdate, flags := 0, sid := mask31 sid }
+          (.windowUpdate (mask31 sid) (mask31 inc)) (genWindowUpdate sid inc).length := by
+  unfold genWindowUpdate
+  have hh := c15_decode_encode_header
+    { len := Consts.h2WindowUpdatePayloadSize, ftype := .windowUpdate, flags := 0, sid := sid }
+    (be32 (mask31 inc)) mfs
+    (by simp [Consts.h2WindowUpdatePayloadSize]) hm (by simp) trivial (by simp [sidValid])
+  have hv : beVal (be32 (mask31 inc)) = mask31 inc := by
+    rw [beVal_be32]; have := mask31_lt inc; omega
+  have hb : frameBody (be32 (mask31 inc))
+      { len := Consts.h2WindowUpdatePayloadSize, ftype := .windowUpdate, flags := 0, sid := mask31 sid } =
+      .ok (.windowUpdate (mask31 sid) (mask31 inc)) [] := by
+    simp [frameBody, windowUpdateFrame, Consts.h2WindowUpdatePayloadSize, be32] at hv ⊢
+    rw [hv, mask31_idem]
+  rw [decode_of_ok hh hb]
+  simp
+
+theorem c15_decode_encode_goaway (last code mfs : Nat) (hm : Consts.h2GoawayPayloadSize ≤ mfs)
+    (hc : code < 4294967296) :
+    decode (genGoAway last code) mfs =
+      .ok { len := Consts.h2GoawayPayloadSize, ftype := .goAway, flags := 0, sid := 0 }
+          (.goAway (mask31 last) code []) (genGoAway last code).length := by
+  unfold genGoAway
+  have hh := c15_decode_encode_header
+    { len := Consts.h2GoawayPayloadSize, ftype := .goAway, flags := 0, sid := 0 }
+    (be32 (mask31 last) ++ be32 code) mfs
+    (by simp [Consts.h2GoawayPayloadSize]) hm (by simp) trivial (by simp [sidValid, mask31])
+  have h0 : mask31 0 = 0 := by simp [mask31]
+  rw [h0] at hh
+  have hv1 : beVal (be32 (mask31 last)) = mask31 last := by
+    rw [beVal_be32]; have := mask31_lt last; omega
+  have hv2 : beVal (be32 code) = code := by rw [beVal_be32]; omega
+  have hb : frameBody (be32 (mask31 last) ++ be32 code)
+      { len := Consts.h2GoawayPayloadSize, ftype := .goAway, flags := 0, sid := 0 } =
+      .ok (.goAway (mask31 last) code []) [] := by
+    simp [frameBody, goAwayFrame, Consts.h2GoawayPayloadSize, be32] at hv1 hv2 ⊢
+    rw [hv1, hv2, mask31_idem]; simp
+  rw [List.append_assoc, decode_of_ok hh hb]
+  simp
+
+theorem c15_decode_encode_ping_ack (payload : Bytes) (mfs : Nat) (hp : payload.length = Consts.h2PingPayloadSize)
+    (hm : Consts.h2PingPayloadSize ≤ mfs) :
+    decode (genPingAck payload) mfs =
+      .ok { len := Consts.h2PingPayloadSize, ftype := .ping, flags := Consts.h2FlagAck, sid := 0 }
+          (.ping payload true) (genPingAck payload).length := by
+  have hg : genPingAck payload =
+      genFrameHeader { len := Consts.h2PingPayloadSize, ftype := .ping, flags := Consts.h2FlagAck, sid := 0 }
+        ++ payload := by
+    have : genFrameHeader { len := Consts.h2PingPayloadSize, ftype := .ping, flags := Consts.h2FlagAck, sid := 0 }
+        = Consts.h2PingAckHeader := by decide
+    rw [this]; rfl
+  have hh := c15_decode_encode_header
+    { len := Consts.h2PingPayloadSize, ftype := .ping, flags := Consts.h2FlagAck, sid := 0 } payload mfs
+    (by simp [Consts.h2PingPayloadSize]) hm (by simp [Consts.h2FlagAck]) trivial (by simp [sidValid, mask31])
+  have h0 : mask31 0 = 0 := by simp [mask31]
+  rw [h0] at hh
+  have hb : frameBody payload
+      { len := Consts.h2PingPayloadSize, ftype := .ping, flags := Consts.h2FlagAck, sid := 0 } =
+      .ok (.ping payload true) [] := by
+    have ha : flagSet Consts.h2FlagAck Consts.h2FlagAck = true := by decide
+    simp only [Consts.h2PingPayloadSize] at hp
+    simp [frameBody, pingFrame, Consts.h2PingPayloadSize, hp, ha]
+    rw [← hp]; simp
+  rw [hg, decode_of_ok hh hb]
+  simp
+
+theorem c15_decode_encode_settings_ack (mfs : Nat) :
+    decode Consts.h2SettingsAck mfs =
+      .ok { len := 0, ftype := .settings, flags := Consts.h2FlagAck, sid := 0 } (.settings [] true) 9 := by
+  have hh : frameHeader Consts.h2SettingsAck mfs =
+      .ok { len := 0, ftype := .settings, flags := Consts.h2FlagAck, sid := 0 } [] := by
+    have e : Consts.h2SettingsAck =
+        genFrameHeader { len := 0, ftype := .settings, flags := Consts.h2FlagAck, sid := 0 } ++ [] := by decide
+    rw [e]
+    have := c15_decode_encode_header { len := 0, ftype := .settings, flags := Consts.h2FlagAck, sid := 0 } [] mfs
+      (by simp) (by simp) (by simp [Consts.h2FlagAck]) trivial (by simp [sidValid, mask31])
+    simpa [mask31] using this
+  have hb : frameBody [] { len := 0, ftype := .settings, flags := Consts.h2FlagAck, sid := 0 } =
+      .ok (.settings [] true) [] := by decide
+  rw [decode_of_ok hh hb]
+  rfl
+
+theorem c15_decode_encode_settings (s : Settings) (mfs : Nat) (hw : s.wf)
+    (hm : Consts.h2SettingsEntrySize * Consts.h2SettingsCount ≤ mfs) :
+    decode (genSettings s) mfs =
+      .ok { len := Consts.h2SettingsEntrySize * Consts.h2SettingsCount, ftype := .settings, flags := 0, sid := 0 }
+          (.settings (settingsEntries s) false) (genSettings s).length := by
+  unfold genSettings
+  have hh := c15_decode_encode_header
+    { len := Consts.h2SettingsEntrySize * Consts.h2SettingsCount, ftype := .settings, flags := 0, sid := 0 }
+    (genEntries (settingsEntries s)) mfs
+    (by simp [Consts.h2SettingsEntrySize, Consts.h2SettingsCount]) hm (by simp) trivial (by simp [sidValid, mask31])
+  have h0 : mask31 0 = 0 := by simp [mask31]
+  rw [h0] at hh
+  obtain ⟨w1, w2, w3, w4, w5⟩ := hw
+  have hes : ∀ e ∈ settingsEntries s, e.1 < 65536 ∧ e.2 < 4294967296 := by
+    intro e he
+    simp only [settingsEntries, List.mem_cons, List.mem_nil_iff, or_false] at he
+    have hb : ∀ b : Bool, b2n b < 4294967296 := by intro b; cases b <;> decide
+    rcases he with rfl | rfl | rfl | rfl | rfl | rfl | rfl | rfl <;>
+      refine ⟨by simp only; decide, ?_⟩ <;> simp only <;>
+      first
+        | assumption
+        | exact hb _
+  have hlen : (genEntries (settingsEntries s)).length = 48 := by
+    rw [genEntries_length]; simp [settingsEntries]
+  have hb : frameBody (genEntries (settingsEntries s))
+      { len := Consts.h2SettingsEntrySize * Consts.h2SettingsCount, ftype := .settings, flags := 0, sid := 0 } =
+      .ok (.settings (settingsEntries s) false) [] := by
+    have hf : flagSet 0 Consts.h2FlagAck = false := by decide
+    have ht : List.take 48 (genEntries (settingsEntries s)) = genEntries (settingsEntries s) := by
+      rw [← hlen]; simp
+    have hd : List.drop 48 (genEntries (settingsEntries s)) = [] := by
+      rw [← hlen]; simp
+    simp [frameBody, settingsFrame, Consts.h2SettingsEntrySize, Consts.h2SettingsCount, Consts.h2MaxSettingsEntries,
+      hf, hlen, ht, hd, parseSettings_genEntries _ hes]
+  rw [decode_of_ok hh hb]
+  simp
+
+theorem c15_flood_detects_ping_burst :
+    (floodRun (Flood.new { cfgSmall with maxPing := 3 }) [.ping, .ping, .ping, .ping]).2
+      = some (ENHANCE_YOUR_CALM, 4, 3) ∧
+    (floodRun (Flood.new { cfgSmall with maxPing := 3 }) [.ping, .ping, .ping, .age 1000, .ping, .ping]).2 = none := by
+  decide
+
+theorem c15_stream_table_conforms (st : StreamSt) (fk : FrameKind) :
+    headerVerdict (viewOf st) fk ∈ rfcAllowed st fk := by
+  cases st <;> cases fk <;> decide
+
+theorem c15_refused_stream_frames_keep_connection (fk : FrameKind) (h : fk ≠ .continuation) :
+    (headerVerdict (viewOf .refused) fk).isConnError = false := by
+  cases fk <;> first | exact absurd rfl h | decide
+
+theorem c15_idle_stream_frames_are_connection_errors (fk : FrameKind) (h1 : fk ≠ .headers) (h2 : fk ≠ .priority) :
+    headerVerdict (viewOf .idleAbove) fk = .connError PROTOCOL_ERROR := by
+  cases fk <;> first | exact absurd rfl h1 | exact absurd rfl h2 | decide
+
+theorem c15_empty_data_counts_content_not_wire (p : Nat) (r : Bytes) (h : Header) (ctx : FrameCtx)
+    (hc : h.len ≤ (p :: r).length) (ht : h.ftype = .data) (hctx : ctx ≠ .closedStream)
+    (hp : flagSet h.flags Consts.h2FlagPadded = true) (hes : flagSet h.flags Consts.h2FlagEndStream = false)
+    (hl : h.len = p + 1) :
+    ∃ f rest, frameBody (p :: r) h = .ok f rest ∧ frameEvents ctx h f = [.emptyData] := by
+  refine ⟨_, _, c15_padding_rules_data_accept p r h hc ht hp (by omega), ?_⟩
+  have : h.len - 1 - p = 0 := by omega
+  simp [frameEvents, this, hes, hctx]
+
+theorem c15_empty_data_unpadded (i : Bytes) (h : Header) (ctx : FrameCtx) (ht : h.ftype = .data)
+    (hctx : ctx ≠ .closedStream) (hp : flagSet h.flags Consts.h2FlagPadded = false)
+    (hes : flagSet h.flags Consts.h2FlagEndStream = false) (hl : h.len = 0) :
+    ∃ f rest, frameBody i h = .ok f rest ∧ frameEvents ctx h f = [.emptyData] := by
+  refine ⟨_, _, c15_padding_rules_data_plain i h (by omega) ht hp, ?_⟩
+  simp [frameEvents, hl, hes, hctx]
+
+theorem c15_stream_state_history_counterexample :
+    (connRun (Conn.init 1) [.frame 1 .headers true, .frame 3 .headers true]).1.rfcState 3 = .closed ∧
+    (connRun (Conn.init 1) [.frame 1 .headers true, .frame 3 .headers true, .respond 1, .frame 3 .headers true]).1.rfcState 3
+      = .halfClosedRemote := by decide
+
 end Sozu.H2Wire
